@@ -210,6 +210,21 @@ static void run(void) {
         }
         int nr = VF_T(300, 6000);
         for (int i = 0; i < nr; i++) check_cell(vf_rand_cell(&r, res), 0, 1);
+        /* the far tips of the base cells' footprints: (d1, d, d, ..., d) — one digit repeated to the finest resolution runs straight
+         * out from the base cell's centre; these cells have the largest face coordinates a base cell produces (a range check in the
+         * index-to-face conversion that is a hair too tight rejects only them) */
+        for (int bc = 0; bc < 122; bc++)
+            for (int d1 = 0; d1 <= 6; d1++)
+                for (int dd = 1; dd <= 6; dd++) {
+                    if (!VF_MINE(idx++) || (!VF.thorough && ((bc + d1 + dd + res) & 3))) continue;
+                    int dg[15];
+                    for (int i = 0; i < res; i++) dg[i] = dd;
+                    dg[0] = d1;
+                    H3Index h = vf_make_cell(res, bc, dg);
+                    if (!ref_is_valid_cell(h)) continue;
+                    check_cell(h, 0, 1);
+                    vf_add("footprint_tip.cells", 1);
+                }
         /* a dense walk along the 30 icosahedron edges (see mon_C10.c) */
         int nper = res >= 14 ? VF_T(40, 400) : res >= 12 ? VF_T(12, 120) : VF_T(4, 40), cap = 90 * nper;
         H3Index *ew = malloc((size_t)cap * 8);
